@@ -32,7 +32,8 @@ theorem partBy_addPath (f : Elem → Bool) (e : Env) (var var2 : Str) (xs : List
   by_cases hv : var2 = var
   · subst hv
     unfold partBy
-    rw [pathOf_addPath_same, PathAlg.filter_uniq, PathAlg.uniq_idem, filter_addAll f app xs hx]
+    rw [pathOf_addPath_same, PathAlg.filter_uniq, PathAlg.uniq_idem, filter_addAll f app _
+      (fun x hx' => hx x (by cases app <;> simpa [PathAlg.loopVals] using hx'))]
   · unfold partBy; rw [pathOf_addPath_other e var var2 xs app hv]
 
 theorem partBy_removePath (f : Elem → Bool) (e : Env) (var var2 : Str) (xs : List Elem)
